@@ -168,3 +168,44 @@ def hasHll (sigs : List Signature) : Bool :=
   sigs.any fun s => s.sketches.any fun | .hll .. => true | _ => false
 
 end SigFormat
+
+/-! ### the states the property quantifies over -/
+namespace SigFormat
+open SigJson
+
+/-- one of the four hash functions of the format (`HashFunctions::Custom` has no published name) -/
+def standard : Mol → Prop
+  | .custom _ => False
+  | _ => True
+
+instance : DecidablePred standard := fun m => by cases m <;> (unfold standard; infer_instance)
+
+/-- the field types: `num, ksize : u32`, `seed, max_hash : u64`, hashes and abundances `u64` -/
+structure InRange (m : MinHash) : Prop where
+  num : m.num < 2^32
+  ksize : m.ksize < 2^32
+  seed : m.seed < 2^64
+  maxHash : m.maxHash < 2^64
+  mins : ∀ x ∈ m.mins, x < 2^64
+  abunds : ∀ a, m.abunds = some a → ∀ x ∈ a, x < 2^64
+
+/-- a sketch state as C01 guarantees it: hashes strictly increasing, abundances aligned; a sketch is a
+    num sketch or a scaled sketch (DESIGN App. A: "scaled ≥ 1 or num ≥ 1"), with a standard hash function -/
+structure WFMinHash (m : MinHash) : Prop extends InRange m where
+  sorted : m.mins.Pairwise (· < ·)
+  aligned : ∀ a, m.abunds = some a → a.length = m.mins.length
+  numOrScaled : m.maxHash ≠ 0 → m.num = 0
+  mol : standard m.mol
+
+def WFSketch : Sketch → Prop
+  | .vec m | .tree m => WFMinHash m
+  | .hll regs p q ksize => (∀ r ∈ regs, r < 256) ∧ p < 2^64 ∧ q < 2^64 ∧ ksize < 2^64
+
+def WFSignature (s : Signature) : Prop := ∀ sk ∈ s.sketches, WFSketch sk
+
+/-- a sketch without its container type: parameters, hashes, abundances, md5 (or the HyperLogLog state) -/
+def content : Sketch → Sum MinHash (List Nat × Nat × Nat × Nat)
+  | .vec m | .tree m => .inl m
+  | .hll regs p q ksize => .inr (regs, p, q, ksize)
+
+end SigFormat
